@@ -317,6 +317,34 @@ def check_sparse(case, rec=None):
             fails.append(fail("meta", "sparse_localmax meta nlabel wrong", fn="sparse_localmax"))
     else:
         fails.append(exc_failure("sparse_localmax", n))
+    if ok and not fails:
+        # the label image of the frame: into a buffer of the caller's (with content from a frame before) or a new one
+        ok, dn = guard(fr.to_dense, "localmax")
+        buf_ = np.full((ns, nf), 9, np.asarray(fr.pixels["localmax"]).dtype)
+        ok2, db = guard(fr.to_dense, "localmax", buf_)
+        if ok and ok2:
+            if not np.array_equal(np.asarray(dn), np.asarray(db)) or (np.asarray(db)[~(np.asarray(dn) > 0)] != 0).any():
+                fails.append(fail("background", "to_dense('localmax', out=used buffer) differs from to_dense('localmax'): "
+                                  "pixels outside the frame keep what the buffer held", fn="to_dense"))
+        else:
+            fails.append(exc_failure("sparse_frame.to_dense", dn if not ok else db))
+        # the same pixels delivered in another order on a large detector (addresses beyond 65535), put in order by
+        # sort(): same labels as the frame built in order
+        pm_ = np.random.RandomState(case["mseed"] % (2 ** 32)).permutation(nnz)
+        big_ = (ns + 400, max(nf, 300))
+        frs = sparseframe.sparse_frame((i + 400).astype(np.uint16)[pm_], j[pm_], big_, pixels={"intensity": v[pm_]})
+        fro = sparseframe.sparse_frame((i + 400).astype(np.uint16), j, big_, pixels={"intensity": v})
+        ok, e_ = guard(frs.sort)
+        if ok:
+            ok, ns_ = guard(sparseframe.sparse_localmax, frs)
+            ok2, no_ = guard(sparseframe.sparse_localmax, fro)
+        if not ok:
+            fails.append(exc_failure("sparse_frame.sort / sparse_localmax", e_ if not isinstance(e_, type(None)) else ns_))
+        elif not (np.array_equal(frs.row, fro.row) and np.array_equal(frs.col, fro.col) and ns_ == no_ and
+                  np.array_equal(frs.pixels["localmax"], fro.pixels["localmax"])):
+            fails.append(fail("order", "a frame of a %d x %d detector put in order with sort() is labelled differently "
+                              "from the same frame built in order (%s vs %s labels)" % (big_[0], big_[1], ns_, no_),
+                              fn="sort"))
     sc = object.__new__(sparseframe.SparseScan)
     sc.names = ["row", "col", "intensity"]
     sc.nnz = np.array([nnz, 0, nnz])
